@@ -7,7 +7,9 @@ package main
 //   (c) every select statement: which cases it has,
 //   plus who closes pending channels, who calls Cmd.Wait, whether readSSE ends in close(), whether processWatcher
 //   cancels, whether the asynchronous listening-stream start looks at a closed flag, whether the public Close() of the
-//   clients reaches transport.close() under no condition but `transport != nil`;
+//   clients reaches transport.close() under no condition but `transport != nil`, whether the legacy SSE client's `start`
+//   bounds its stream request by the caller's context while it is being established and waits for the endpoint event
+//   with a case for the stream's context (which Close() cancels);
 //   (a') for the three servers: every function that registers a server-issued request in a pending table (directly or
 //   through a wrapper such as responseManager.RegisterRequest): is the delete deferred before any return can follow.
 // Purely syntactic and conservative: what is not recognised in exactly the shape the source uses is emitted as
@@ -967,6 +969,147 @@ func srvInserts(root *pkgSrc) []srvInsert {
 	return out
 }
 
+// clStartFacts: the legacy SSE client's `start` (the first stage of its handshake).
+//
+//	bounded: the stream request ends with the caller's context while it is being established — it is built with the
+//	  function's own context parameter, or with a context X made by `X, C := context.WithCancel(…)` and a goroutine of the
+//	  function runs `select { case <-P.Done(): … C() … }` for a context parameter P;
+//	selStream: every select of the function that waits on the caller's context (the wait for the endpoint event) also has
+//	  the case `<-X.Done()` — Close() cancels X.
+func clStartFacts(root *pkgSrc, fs []clFunc) (bounded, selStream bool) {
+	fd := clFind(fs, "sse", "start")
+	if fd == nil {
+		return false, false
+	}
+	ctxs := clCtxParams(fd)
+	// the context the request is built with
+	reqCtx := ""
+	ast.Inspect(fd.Body, func(n ast.Node) bool {
+		if c, ok := n.(*ast.CallExpr); ok && clCalleeName(c) == "NewRequestWithContext" && len(c.Args) > 0 {
+			if id, ok := c.Args[0].(*ast.Ident); ok {
+				reqCtx = id.Name
+			}
+		}
+		return true
+	})
+	if reqCtx == "" {
+		return false, false
+	}
+	// X, C := context.WithCancel(…)
+	cancelOf := ""
+	ast.Inspect(fd.Body, func(n ast.Node) bool {
+		as, ok := n.(*ast.AssignStmt)
+		if !ok || len(as.Lhs) != 2 || len(as.Rhs) != 1 {
+			return true
+		}
+		call, ok := as.Rhs[0].(*ast.CallExpr)
+		if !ok || clSquash(root, call.Fun) != "context.WithCancel" {
+			return true
+		}
+		x, ok1 := as.Lhs[0].(*ast.Ident)
+		c, ok2 := as.Lhs[1].(*ast.Ident)
+		if ok1 && ok2 && x.Name == reqCtx {
+			cancelOf = c.Name
+		}
+		return true
+	})
+	isDoneOf := func(e ast.Expr, of func(string) bool) bool { // `<-V.Done()`
+		u, ok := e.(*ast.UnaryExpr)
+		if !ok || u.Op != token.ARROW {
+			return false
+		}
+		c, ok := u.X.(*ast.CallExpr)
+		if !ok {
+			return false
+		}
+		sel, ok := c.Fun.(*ast.SelectorExpr)
+		if !ok || sel.Sel.Name != "Done" {
+			return false
+		}
+		id, ok := sel.X.(*ast.Ident)
+		return ok && of(id.Name)
+	}
+	commExpr := func(cc *ast.CommClause) ast.Expr {
+		switch x := cc.Comm.(type) {
+		case *ast.ExprStmt:
+			return x.X
+		case *ast.AssignStmt:
+			if len(x.Rhs) == 1 {
+				return x.Rhs[0]
+			}
+		}
+		return nil
+	}
+	if ctxs[reqCtx] {
+		bounded = true
+	} else if cancelOf != "" {
+		for _, st := range fd.Body.List {
+			g, ok := st.(*ast.GoStmt)
+			if !ok {
+				continue
+			}
+			fl, ok := g.Call.Fun.(*ast.FuncLit)
+			if !ok {
+				continue
+			}
+			ast.Inspect(fl.Body, func(n ast.Node) bool {
+				cc, ok := n.(*ast.CommClause)
+				if !ok || cc.Comm == nil {
+					return true
+				}
+				if e := commExpr(cc); e != nil && isDoneOf(e, func(v string) bool { return ctxs[v] }) {
+					for _, b := range cc.Body {
+						if clContains(root, b, cancelOf+"()") {
+							bounded = true
+						}
+					}
+				}
+				return true
+			})
+		}
+	}
+	// the selects of the function itself (not of its goroutines) that wait on the caller's context
+	selStream = true
+	waits := 0
+	var walk func(n ast.Node)
+	walk = func(n ast.Node) {
+		ast.Inspect(n, func(m ast.Node) bool {
+			switch x := m.(type) {
+			case *ast.FuncLit:
+				return false
+			case *ast.SelectStmt:
+				hasCtx, hasStream := false, false
+				for _, c := range x.Body.List {
+					cc := c.(*ast.CommClause)
+					if cc.Comm == nil {
+						continue
+					}
+					if e := commExpr(cc); e != nil {
+						if isDoneOf(e, func(v string) bool { return ctxs[v] }) {
+							hasCtx = true
+						}
+						if isDoneOf(e, func(v string) bool { return v == reqCtx && !ctxs[v] }) {
+							hasStream = true
+						}
+					}
+				}
+				if hasCtx {
+					waits++
+					if !hasStream && !ctxs[reqCtx] {
+						selStream = false
+					}
+				}
+			}
+			return true
+		})
+	}
+	walk(fd.Body)
+	if waits == 0 {
+		selStream = false
+	}
+	return bounded, selStream
+}
+
 func clLeanClient(c string) string { return "." + c }
 
 func clLeanHow(h string) string {
@@ -1037,12 +1180,13 @@ func clGen(root *pkgSrc) {
 		fmt.Fprintf(&b, "\n  -- %s server %s → %s\n  { server := .%s, fn := %s, table := %s, deleteDeferred := %s }", r.server, r.fn, r.table, r.server, leanText(r.fn), leanText(r.table), leanBool(r.deferred))
 	}
 	b.WriteString("]\n")
+	startBounded, startSelStream := clStartFacts(root, fs)
 	var unguarded []string
 	for _, c := range clCloseUnguarded(root) {
 		unguarded = append(unguarded, clLeanClient(c))
 	}
-	fmt.Fprintf(&b, "def clTables : Tables :=\n  { inserts := clInserts, bodies := clBodies, selects := clSelects, chanClosers := clChanClosers, closeUnguarded := [%s], waitSites := clWaitSites,\n    readerCloses := %s, watcherCancels := %s, startGuarded := %s }\n",
-		strings.Join(unguarded, ", "), leanBool(clReaderCloses(root, fs)), leanBool(clWatcherCancels(root, fs)), leanBool(clStartGuarded(root, fs)))
+	fmt.Fprintf(&b, "def clTables : Tables :=\n  { inserts := clInserts, bodies := clBodies, selects := clSelects, chanClosers := clChanClosers, closeUnguarded := [%s], waitSites := clWaitSites,\n    readerCloses := %s, watcherCancels := %s, startGuarded := %s, startBounded := %s, startSelStream := %s }\n",
+		strings.Join(unguarded, ", "), leanBool(clReaderCloses(root, fs)), leanBool(clWatcherCancels(root, fs)), leanBool(clStartGuarded(root, fs)), leanBool(startBounded), leanBool(startSelStream))
 	b.WriteString("end Mcp.Gen.CallFacts\n")
 	writeIfChanged("CallFacts.lean", b.String())
 }
